@@ -7,6 +7,7 @@ the rank bound of C01 and the distance criteria of C17.
 
 The linear algebra is done over `ZMod 2` through the bridge of `Proofs/Symplectic.lean`.
 -/
+import Mathlib.Data.Finset.Card
 import PanqecVerif.Proofs.Symplectic
 
 namespace Panqec
@@ -328,5 +329,218 @@ theorem isSuccess_iff_inSpan {n k : Nat} {H Lx Lz : List (List Nat)}
       obtain ⟨i, rfl⟩ := CommPairL.exists_getD hc.kX hl
       rw [symp_eq_zero_iff (hc.lenX _ hl) he_len]
       exact hx i
+
+/-! ### 5. distance -/
+
+/-- every listed logical X of a valid code is a non-trivial logical operator -/
+theorem listedX_nontrivial {n k : Nat} {H Lx Lz : List (List Nat)}
+    (hv : ValidCodeL n k H Lx Lz) {l : List Nat} (hl : l ∈ Lx) : IsNontrivialLogical n H l := by
+  have hc := hv.toCommPair
+  refine ⟨(hv.wfX l hl).1, (hv.wfX l hl).2, ?_, ?_⟩
+  · intro g hg; rw [symp_comm]; exact hv.logX_comm l hl g hg
+  · intro hspan
+    have hs := (isSuccess_iff_inSpan hv .wide l (hv.wfX l hl).1 (hv.wfX l hl).2).mpr hspan
+    unfold isSuccess at hs
+    rw [Bool.and_eq_true, Bool.not_eq_true', isLogicalError_eq_false_iff] at hs
+    obtain ⟨i, rfl⟩ := CommPairL.exists_getD hc.kX hl
+    have h0 := hs.2.1 _ (hc.getZ_mem i)
+    have h1 := hv.pairing i i i.2 i.2
+    rw [symp_comm] at h0
+    rw [if_pos rfl] at h1
+    omega
+
+/-- every listed logical Z of a valid code is a non-trivial logical operator -/
+theorem listedZ_nontrivial {n k : Nat} {H Lx Lz : List (List Nat)}
+    (hv : ValidCodeL n k H Lx Lz) {l : List Nat} (hl : l ∈ Lz) : IsNontrivialLogical n H l := by
+  have hc := hv.toCommPair
+  refine ⟨(hv.wfZ l hl).1, (hv.wfZ l hl).2, ?_, ?_⟩
+  · intro g hg; rw [symp_comm]; exact hv.logZ_comm l hl g hg
+  · intro hspan
+    have hs := (isSuccess_iff_inSpan hv .wide l (hv.wfZ l hl).1 (hv.wfZ l hl).2).mpr hspan
+    unfold isSuccess at hs
+    rw [Bool.and_eq_true, Bool.not_eq_true', isLogicalError_eq_false_iff] at hs
+    obtain ⟨i, rfl⟩ := CommPairL.exists_getD hc.kZ hl
+    have h0 := hs.2.2 _ (hc.getX_mem i)
+    have h1 := hv.pairing i i i.2 i.2
+    rw [if_pos rfl] at h1
+    omega
+
+/-- C17 generic criterion: if some listed logical has weight `d` and no non-trivial
+    logical is lighter, then `d` is the distance. -/
+theorem distance_criterion {n k : Nat} {H Lx Lz : List (List Nat)}
+    (hv : ValidCodeL n k H Lx Lz) (d : Nat)
+    (hex : ∃ l ∈ Lx ++ Lz, pauliWeight l = d)
+    (hlow : ∀ v, IsNontrivialLogical n H v → d ≤ pauliWeight v) : IsDistance n H d := by
+  refine ⟨?_, hlow⟩
+  obtain ⟨l, hl, hw⟩ := hex
+  rcases List.mem_append.mp hl with h | h
+  · exact ⟨l, listedX_nontrivial hv h, hw⟩
+  · exact ⟨l, listedZ_nontrivial hv h, hw⟩
+
+/-- a non-trivial logical anticommutes with at least one listed logical -/
+theorem nontrivial_anticommutes_listed {n k : Nat} {H Lx Lz : List (List Nat)}
+    (hv : ValidCodeL n k H Lx Lz) {v : List Nat} (hnt : IsNontrivialLogical n H v) :
+    ∃ l ∈ Lx ++ Lz, symp l v = 1 := by
+  obtain ⟨hlen, hbin, hcomm, hns⟩ := hnt
+  have hs : isSuccess .wide H Lx Lz v ≠ true :=
+    fun h => hns ((isSuccess_iff_inSpan hv .wide v hlen hbin).mp h)
+  unfold isSuccess at hs
+  rw [ne_eq, Bool.and_eq_true, Bool.not_eq_true', inCodespace_iff,
+    isLogicalError_eq_false_iff] at hs
+  have h2 : ¬ ((∀ l ∈ Lz, symp l v = 0) ∧ (∀ l ∈ Lx, symp l v = 0)) := fun h => hs ⟨hcomm, h⟩
+  by_contra hcon
+  apply h2
+  have key : ∀ l ∈ Lx ++ Lz, symp l v = 0 := by
+    intro l hl
+    have := symp_lt_two l v
+    have h1 : symp l v ≠ 1 := fun h => hcon ⟨l, hl, h⟩
+    omega
+  exact ⟨fun l hl => key l (List.mem_append.mpr (Or.inr hl)),
+    fun l hl => key l (List.mem_append.mpr (Or.inl hl))⟩
+
+/-- qubit `q` is in the Pauli support of `v` -/
+def hasSupp (v : List Nat) (q : Nat) : Prop :=
+  (xPart v).getD q 0 ≠ 0 ∨ (zPart v).getD q 0 ≠ 0
+
+/-- the Pauli supports of `a` and `b` are disjoint -/
+def SuppDisjoint (a b : List Nat) : Prop := ∀ q, ¬ (hasSupp a q ∧ hasSupp b q)
+
+theorem dot_ne_zero : ∀ xs zs : List Nat, dot xs zs ≠ 0 →
+    ∃ i, xs.getD i 0 ≠ 0 ∧ zs.getD i 0 ≠ 0
+  | [], zs, h => by simp [dot_nil_left] at h
+  | x :: xs, [], h => by simp [dot_nil_right] at h
+  | x :: xs, z :: zs, h => by
+    rw [dot_cons] at h
+    by_cases hxz : x * z = 0
+    · have : dot xs zs ≠ 0 := by omega
+      obtain ⟨i, h1, h2⟩ := dot_ne_zero xs zs this
+      exact ⟨i + 1, by simpa using h1, by simpa using h2⟩
+    · refine ⟨0, ?_, ?_⟩
+      · simp; intro h0; exact hxz (by rw [h0]; simp)
+      · simp; intro h0; exact hxz (by rw [h0]; simp)
+
+/-- two anticommuting operators share a qubit -/
+theorem supp_meet_of_symp_one {a b : List Nat} (h : symp a b = 1) :
+    ∃ q, hasSupp a q ∧ hasSupp b q := by
+  unfold symp at h
+  by_cases h1 : dot (xPart a) (zPart b) = 0
+  · have h2 : dot (zPart a) (xPart b) ≠ 0 := by omega
+    obtain ⟨q, ha, hb⟩ := dot_ne_zero _ _ h2
+    exact ⟨q, Or.inr ha, Or.inl hb⟩
+  · obtain ⟨q, ha, hb⟩ := dot_ne_zero _ _ h1
+    exact ⟨q, Or.inl ha, Or.inr hb⟩
+
+/-- counting: a set of positions at which a Boolean list is `true` is no larger than
+    the number of `true` entries -/
+theorem card_le_countP (l : List Bool) : ∀ T : Finset ℕ, (∀ i ∈ T, l.getD i false = true) →
+    T.card ≤ l.countP id := by
+  induction l using list_rev_induction with
+  | hnil =>
+    intro T hT
+    have : T = ∅ := by
+      apply Finset.eq_empty_of_forall_notMem
+      intro i hi; simpa using hT i hi
+    simp [this]
+  | hsnoc l a ih =>
+    intro T hT
+    have hsub : ∀ i ∈ T.erase l.length, l.getD i false = true := by
+      intro i hi
+      have hne := Finset.ne_of_mem_erase hi
+      have hi' := hT i (Finset.mem_of_mem_erase hi)
+      rw [List.getD_eq_getElem?_getD] at hi' ⊢
+      by_cases hlt : i < l.length
+      · rwa [List.getElem?_append_left hlt] at hi'
+      · rw [List.getElem?_eq_none (by simp; omega)] at hi'
+        simp at hi'
+    have h1 := ih _ hsub
+    rw [List.countP_append]
+    by_cases hmem : l.length ∈ T
+    · have ha : a = true := by
+        have := hT _ hmem
+        simpa [List.getD_eq_getElem?_getD] using this
+      have := Finset.card_erase_of_mem hmem
+      have hpos : 0 < T.card := Finset.card_pos.mpr ⟨_, hmem⟩
+      simp [ha]; omega
+    · rw [Finset.erase_eq_of_notMem hmem] at h1
+      omega
+
+theorem getD_zipWith_supp (xs zs : List Nat) (h : xs.length = zs.length) (q : ℕ)
+    (hq : xs.getD q 0 ≠ 0 ∨ zs.getD q 0 ≠ 0) :
+    (List.zipWith (fun x z => x != 0 || z != 0) xs zs).getD q false = true := by
+  have hlt : q < xs.length := by
+    by_contra hge
+    have h1 : xs.getD q 0 = 0 := by
+      rw [List.getD_eq_getElem?_getD, List.getElem?_eq_none (by omega)]; rfl
+    have h2 : zs.getD q 0 = 0 := by
+      rw [List.getD_eq_getElem?_getD, List.getElem?_eq_none (by omega)]; rfl
+    rcases hq with hq | hq
+    · exact hq h1
+    · exact hq h2
+  have hlt' : q < zs.length := by omega
+  simp only [List.getD_eq_getElem?_getD, List.getElem?_eq_getElem hlt,
+    List.getElem?_eq_getElem hlt', Option.getD_some] at hq
+  simp only [List.getD_eq_getElem?_getD, List.getElem?_zipWith, List.getElem?_eq_getElem hlt,
+    List.getElem?_eq_getElem hlt']
+  simpa using hq
+
+/-- the weight of `v` is at least the size of any set of qubits in its support -/
+theorem card_le_pauliWeight {n : ℕ} {v : List Nat} (hv : v.length = 2 * n) (T : Finset ℕ)
+    (hT : ∀ q ∈ T, hasSupp v q) : T.card ≤ pauliWeight v := by
+  unfold pauliWeight rowWeight
+  apply card_le_countP
+  intro q hq
+  exact getD_zipWith_supp _ _ (by rw [xPart_len hv, zPart_len hv]) q (hT q hq)
+
+/-- pigeonhole over pairwise disjoint supports -/
+theorem exists_supp_transversal (v : List Nat) : ∀ reps : List (List Nat),
+    reps.Pairwise SuppDisjoint → (∀ r ∈ reps, ∃ q, hasSupp r q ∧ hasSupp v q) →
+    ∃ T : Finset ℕ, T.card = reps.length ∧ ∀ q ∈ T, hasSupp v q ∧ ∃ r ∈ reps, hasSupp r q
+  | [], _, _ => ⟨∅, by simp⟩
+  | r :: rs, hp, hm => by
+    rw [List.pairwise_cons] at hp
+    obtain ⟨T, hcard, hT⟩ := exists_supp_transversal v rs hp.2
+      (fun r' hr' => hm r' (by simp [hr']))
+    obtain ⟨q, hrq, hvq⟩ := hm r (by simp)
+    have hnot : q ∉ T := by
+      intro hq
+      obtain ⟨_, r', hr', hr'q⟩ := hT q hq
+      exact hp.1 r' hr' q ⟨hrq, hr'q⟩
+    refine ⟨insert q T, by rw [Finset.card_insert_of_notMem hnot, hcard]; simp, ?_⟩
+    intro q' hq'
+    rcases Finset.mem_insert.mp hq' with rfl | hq'
+    · exact ⟨hvq, r, by simp, hrq⟩
+    · obtain ⟨h1, r', hr', h2⟩ := hT q' hq'
+      exact ⟨h1, r', by simp [hr'], h2⟩
+
+/-- C17 packing bound: if every listed logical `l` has `m` representatives modulo the
+    stabilizer group (`l ⊕ r` is a product of generators) with pairwise disjoint Pauli
+    supports, then every non-trivial logical operator has weight at least `m`. -/
+theorem packing_lower_bound {n k : Nat} {H Lx Lz : List (List Nat)}
+    (hv : ValidCodeL n k H Lx Lz) (m : Nat)
+    (hreps : ∀ l ∈ Lx ++ Lz, ∃ reps : List (List Nat), reps.length = m ∧
+      (∀ r ∈ reps, r.length = 2 * n ∧ InSpan (2 * n) H (vxor l r)) ∧
+      reps.Pairwise SuppDisjoint) :
+    ∀ v, IsNontrivialLogical n H v → m ≤ pauliWeight v := by
+  intro v hnt
+  have hc := hv.toCommPair
+  obtain ⟨l, hl, hlv⟩ := nontrivial_anticommutes_listed hv hnt
+  obtain ⟨hlen, hbin, hcomm, hns⟩ := hnt
+  have hllen : l.length = 2 * n := by
+    rcases List.mem_append.mp hl with h | h
+    · exact hc.lenX l h
+    · exact hc.lenZ l h
+  obtain ⟨reps, hm, hr, hpw⟩ := hreps l hl
+  have hmeet : ∀ r ∈ reps, ∃ q, hasSupp r q ∧ hasSupp v q := by
+    intro r hrr
+    obtain ⟨hrlen, hrs⟩ := hr r hrr
+    apply supp_meet_of_symp_one
+    have h0 : symp v (vxor l r) = 0 :=
+      symp_inSpan_zero hc.lenH hlen (fun g hg => by rw [symp_comm]; exact hcomm g hg) hrs
+    rw [symp_comm, symp_vxor_left l r v (by rw [hllen, hrlen]), hlv] at h0
+    have := symp_lt_two r v
+    omega
+  obtain ⟨T, hcard, hT⟩ := exists_supp_transversal v reps hpw hmeet
+  rw [← hm, ← hcard]
+  exact card_le_pauliWeight hlen T (fun q hq => (hT q hq).1)
 
 end Panqec
